@@ -179,6 +179,14 @@ def hmac_keyblock_events(ck_ob, f, label, mask, keyarg, lenarg, tagname, statear
             wipes = [(i_, e) for i_, e in enumerate(ev_all) if e[2] == "tinyjambu_clean" and not e[3][0].startswith("arg")]
             ev = [e for e in ev_all if not (e[2] == "tinyjambu_clean" and not e[3][0].startswith("arg"))]
             pos_of = {id(e): i_ for i_, e in enumerate(ev_all)}
+            # a long key reduced by the one-shot hash into a local buffer: it touches no hash state of the object, so where it stands
+            # relative to the other calls does not matter; it is taken out here and accepted below as the long-key preprocessing
+            pre_hash = None
+            for i_, e in enumerate(ev):
+                if e[2] == "tinyjambu_hash" and str(e[3][0]).startswith("alloca") and tuple(e[3][1:3]) == (repr(Lf.s(KEY)), repr(Lf.s(("n", lenarg)))):
+                    pre_hash = e
+                    ev = ev[:i_] + ev[i_ + 1:]
+                    break
             if expect_prefix:
                 ev = expect_prefix(p, ev, cname)
                 if ev is None:
@@ -191,7 +199,12 @@ def hmac_keyblock_events(ck_ob, f, label, mask, keyarg, lenarg, tagname, statear
                 S = h0_[0][3][0]
             var = [e for e in p.events if e[0] == "VARMEM"]
             c(not var, "%s-resolved(%s)" % (tagname, cname), "all copies have constant lengths in this class", "variable-length copy not resolved in class %s: %s" % (cname, [e[3] for e in var][:2]))
-            if cname0 == "len>64":
+            if cname0 == "len>64" and pre_hash is not None:
+                c(True, "%s-long-key-hashed" % tagname, "keys longer than 64 bytes are first hashed: the one-shot tinyjambu_hash(local, key, keylen) (= init; update; finalize by C10's rule on the one-shot)", "")
+                rest = ev
+                keybytes = bytes_sym("DIGEST", pre_hash[1], 32)
+                n = 32
+            elif cname0 == "len>64":
                 pre_ev, rest = ev[:3], ev[3:]
                 okp = len(pre_ev) == 3 and [e[2] for e in pre_ev] == ["tinyjambu_hash_init", "tinyjambu_hash_update", "tinyjambu_hash_finalize"] \
                     and pre_ev[0][3][0] == S and pre_ev[1][3] == (S, repr(Lf.s(KEY)), repr(Lf.s(("n", lenarg)))) and pre_ev[2][3][0] == S
